@@ -199,6 +199,16 @@ def run_grid(shard, ctx):
                 ov = [(0, 'A1', x)] + ([] if blank else [(0, 'B1', n)])
                 r.count('digit_count_supplied_indirectly')
                 _check(r, fn, text, n, book.value(0, cell, ov), 'digits-via:' + cell, mon)
+    # a logical value as the amount (an IF without an else branch hands over FALSE): rounding makes the NUMBER 0 or 1 of it at every digit count
+    if 'f' not in shard:
+        for lv, num in ((True, 1), (False, 0)):
+            for n in (0, 1, 2, -1, 17, 331, 400):
+                for (fn, cell), out in zip(FCELL.items(), book.values(0, list(FCELL.values()), [(0, 'A1', lv), (0, 'B1', n)])):
+                    r.ev()
+                    r.count('logical_amounts_rounded')
+                    want = num if n >= 0 else (10 if (fn == 'ROUNDUP' and lv) else 0)
+                    if not outcome_matches(out, [want], exact=True):
+                        report(r, ID, None, {'fn': fn, 'text': str(lv).upper(), 'digits': n, 'how': 'override'}, out.brief(), want, monitor='decimal-quantize')
     # digit counts far beyond what a double holds: "a value already representable at the requested precision is returned unchanged"
     if 'f' not in shard:
         for text in (f'{sign}{ip}.5', f'{sign}{ip}.0625', f'{sign}{ip}.1235'):
